@@ -152,6 +152,16 @@ class FS:
             return False
         return fname in self.files and walk(self.files[fname], set())
 
+    def contains_links(self, oid, seen=None):
+        seen = set() if seen is None else seen
+        if oid in seen:
+            return False
+        seen.add(oid)
+        for ref in self.objs[oid]["children"].values():
+            if ref[0] != "hard" or self.contains_links(ref[1], seen):
+                return True
+        return False
+
     def canon(self):
         def ser(f, oid, seen):
             if oid in seen:
@@ -223,6 +233,8 @@ class FS:
             self.files[df] = self.new_obj()
         if s[0] != sf:
             raise Unspecified("source reached through an external link")
+        if self.contains_links(s[1]):
+            raise Unspecified("copying a subtree that CONTAINS soft/external links (absolute link paths change meaning at the new place)")
         new = self.deep_copy_obj(sf, s[1])
         if not self.parts(dp):
             # copy INTO the root of a fresh file: every child is copied BY PATH (h5py dereferences soft/external links when an
